@@ -4,6 +4,7 @@ pub mod iso_m {
 use super::*;
 impl ParseISO8601<DateTime<FixedOffset>> for DateTime<FixedOffset> {
 //@ fn chronoutil.rs impl ParseISO8601<DateTime<FixedOffset>> for DateTime<FixedOffset> :: parse_from_iso8601
+//@ params s
 //@ hideutf8
 //@ props C08 C16
 //@ ret r
@@ -25,6 +26,7 @@ impl ParseISO8601<DateTime<FixedOffset>> for DateTime<FixedOffset> {
 //@ after 1 `if let Some(cap) = ISO_8601_REGEX.captures(s) {`
             let ghost g = cap.g;
             proof {
+                lemma_iso_groups_shape(s.spec_bytes());
                 lemma_group_names(g);
                 lemma_dec_bound(g.year); lemma_dec_bound(g.month); lemma_dec_bound(g.day); lemma_dec_bound(g.hour); lemma_dec_bound(g.minute); lemma_dec_bound(g.second);
                 assert(pow10(2) == 100 && pow10(4) == 10000 && pow10(9) == 1_000_000_000) by { reveal_with_fuel(pow10, 10); }
